@@ -2,7 +2,7 @@
 import vlib
 from props import p2common
 
-PREFIXES = ['c11_']
+PREFIXES = ['c11_', 'c08_wrong_error_class', 'c08_error_without_failure']  # 'reported failed with the device's error class'
 
 
 def run(ctx):
